@@ -40,16 +40,19 @@ def operand(dt, side, masked, shape):
     return vals, mask
 
 
-def build_pair(ldt, rdt, mcfg, shape):
+def build_pair(ldt, rdt, mcfg, shape, bcast=False):
     dims = ('t', 'x') if len(shape) == 2 else ('x',)
     files = []
     for side, dt in (('L', ldt), ('R', rdt)):
         f = RFile()
         for d, n in zip(dims, shape):
-            f.dims[d] = [n, False]
+            f.dims[d] = [1 if (bcast and side == 'R' and d == 't') else n, False]
         masked = (mcfg in ('masked-left', 'masked-both') and side == 'L') or \
             (mcfg in ('masked-right', 'masked-both') and side == 'R')
         v, m = operand(dt, side, masked, shape)
+        if bcast and side == 'R':
+            # rows 0..8 of the right operand hold the alphabet once each: keep the row with the masked cell
+            v, m = v[:1].copy(), m[:1].copy()
         f.vars['V'] = RVar(dims, v, m, OrderedDict([('units', 'ppb')]), fill=(99 if np.dtype(dt).kind == 'u' else -999) if masked else None,
                            masked=masked)
         # coordinate variable: values differ between the operands (must come from the left)
@@ -143,6 +146,9 @@ class Prop(core.Prop):
             for rdt in dts:
                 for shape in b['shapes']:
                     yield {'part': 'binop', 'ldt': ldt, 'rdt': rdt, 'shape': list(shape)}
+                # the right operand has a length-1 first dimension (hourly values minus their time mean): it is
+                # broadcast to the left operand, masks included
+                yield {'part': 'binop', 'ldt': ldt, 'rdt': rdt, 'shape': [9, 9], 'bcast': True}
         for i in range(len(EVALS)):
             yield {'part': 'eval', 'prog': i}
         yield {'part': 'evalseq'}
@@ -173,7 +179,7 @@ class Prop(core.Prop):
 
     # ------------------------------------------------------------------
     def run_binop(self, case):
-        lf, rf = build_pair(case['ldt'], case['rdt'], case['mcfg'], tuple(case['shape']))
+        lf, rf = build_pair(case['ldt'], case['rdt'], case['mcfg'], tuple(case['shape']), bool(case.get('bcast')))
         L, R = lib.to_real(lf), lib.to_real(rf)
         lsnap = lib.snap(L)
         op = case['op']
@@ -181,7 +187,7 @@ class Prop(core.Prop):
         st = [rfile.canon(lf), rfile.canon(rf)]
         sig = ('operator', op)
         scope = dict(op=op, ldt=case['ldt'], rdt=case['rdt'], mcfg=case['mcfg'],
-                     kinds=np.dtype(case['ldt']).kind + np.dtype(case['rdt']).kind)
+                     kinds=np.dtype(case['ldt']).kind + np.dtype(case['rdt']).kind, bcast=bool(case.get('bcast')))
         indomain = True
         with np.errstate(all='ignore'):
             try:
@@ -207,11 +213,12 @@ class Prop(core.Prop):
         g = lib.snap(got)
         # V: elementwise result, masks united, non-finite masked
         emask = a.mask | b.mask
+        bdata, bmask = np.broadcast_to(b.data, exp.shape), np.broadcast_to(b.mask, exp.shape)
         if exp.dtype.kind in 'fc':
             emask = emask | ~np.isfinite(exp)
         skip = np.zeros(exp.shape, bool)
         if op in ('//', '%', '/') and exp.dtype.kind in 'iu':
-            skip = (b.data == 0)
+            skip = (bdata == 0)
         if op in ('//', '%') and exp.dtype.kind in 'f':
             pass
         if 'V' not in g.vars:
@@ -226,9 +233,9 @@ class Prop(core.Prop):
                     i = int(np.flatnonzero(mm)[0])
                     vs.append(viol('mask-differs', sig,
                                    '%d cells; e.g. %r %s %r (operand masks %s,%s): masked=%s expected %s'
-                                   % (mm.sum(), a.data.flat[i], op, b.data.flat[i], a.mask.flat[i],
-                                      b.mask.flat[i], gv.mask.flat[i], emask.flat[i]),
-                                   operand_masked=bool((a.mask | b.mask).flat[i]), **scope))
+                                   % (mm.sum(), a.data.flat[i], op, bdata.flat[i], a.mask.flat[i],
+                                      bmask.flat[i], gv.mask.flat[i], emask.flat[i]),
+                                   operand_masked=bool((a.mask | bmask).flat[i]), **scope))
                 keep = ~emask & ~gv.mask & ~skip
                 # numerically equal (numpy.ma arithmetic turns -0.0 into +0.0; not a value difference)
                 if not np.array_equal(gv.data[keep], exp[keep], equal_nan=True):
@@ -237,7 +244,7 @@ class Prop(core.Prop):
                                                                     equal_nan=True)))
                     i = int(ne[0]) if ne.size else 0
                     vs.append(viol('values-differ', sig, 'e.g. %r %s %r = %r expected %r (dtype %s vs %s)'
-                                   % (a.data.flat[i], op, b.data.flat[i], gv.data.flat[i], exp.flat[i],
+                                   % (a.data.flat[i], op, bdata.flat[i], gv.data.flat[i], exp.flat[i],
                                       gv.data.dtype, exp.dtype), **scope))
         # coordinate variable from the left, unchanged; W (missing on the right) copied
         for k in ('x', 'W'):
@@ -250,7 +257,7 @@ class Prop(core.Prop):
                                    sig, '; '.join(d)[:600], **scope))
         triv = exp.dtype == a.data.dtype and np.array_equal(exp, a.data) and not emask.any()
         return result('viol' if vs else 'ok-binop', vs, st, 1,
-                      None if triv else h64('binop', case['ldt'], case['rdt'], case['mcfg'], op, case['shape']),
+                      None if triv else h64('binop', case['ldt'], case['rdt'], case['mcfg'], op, case['shape'], case.get('bcast')),
                       rfile.canon(g) if not vs else None)
 
     # ------------------------------------------------------------------
